@@ -30,6 +30,7 @@ def weighted(n, rng):
         session = [x for x in NAMES if rng.random() < 0.25]
         steps, depth, kinds = [], 0, []
         tops = [set()]
+        globs = [set()]
         for _ in range(rng.randint(3, 9)):
             r = rng.random()
             if r < 0.34:
@@ -40,20 +41,24 @@ def weighted(n, rng):
                 depth += 1
                 kinds.append("function")
                 tops.append({steps[-1]["y"]})
+                globs.append(set())
             elif r < 0.52 and depth < 2:
                 steps.append({"cmd": "class", "form": "", "x": rng.choice(NAMES), "y": ""})
                 depth += 1
                 kinds.append("class")
                 tops.append(set())
+                globs.append(set())
             elif r < 0.62 and depth > 0:
                 steps.append({"cmd": "end", "form": "", "x": "", "y": ""})
                 depth -= 1
                 kinds.pop()
                 tops.pop()
+                globs.pop()
             elif r < 0.67 and kinds and kinds[-1] == "function":
                 steps.append({"cmd": "global", "form": "", "x": rng.choice(NAMES), "y": ""})
-            elif r < 0.74 and tops[-1]:
-                x = rng.choice(sorted(tops[-1]))
+                globs[-1].add(steps[-1]["x"])
+            elif r < 0.74 and (tops[-1] - globs[-1]):
+                x = rng.choice(sorted(tops[-1] - globs[-1]))
                 tops[-1].discard(x)
                 steps.append({"cmd": "del", "form": "", "x": x, "y": ""})
             else:
